@@ -31,6 +31,14 @@ def trunc8(r):
     return r[:8]
 
 
+def authoritative_known(ctx):
+    """The per-property fragment known_findings.d/<pid>.json is authoritative for this property: the merged known_findings.json is
+    derived from the fragments and may lag behind a state change (known -> fixed); a fixed entry must suppress nothing."""
+    p = os.path.join(vlib.VERIF, "known_findings.d", ctx.pid + ".json")
+    if os.path.exists(p):
+        ctx.known = [k for k in json.load(open(p)) if k.get("property") == ctx.pid and k.get("state") == "known"]
+
+
 # ------------------------------------------------------------------------------------------------
 # Coq printers
 # ------------------------------------------------------------------------------------------------
